@@ -70,6 +70,11 @@ class LayerMonitor:
                 if (s_[0] + t_[0], (s_[1] + t_[1]) % 2) in bank and (s_ not in W or tuple(t_) not in W[s_]):
                     self.viol.append(viol("layer-missing-contribution", f"ConvContract has no weight block for {s_} -> {tuple(t_)} although the bank holds the filter type {(s_[0] + t_[0], (s_[1] + t_[1]) % 2)}: that term of the defining sum is silently absent; {cfg}", **cfg))
                     return
+        # the layer's own record of whether some (input, target) pair lacks a filter
+        lacks = any((s_[0] + t_[0], (s_[1] + t_[1]) % 2) not in bank for s_, _ci in layer.input_keys for t_, _c in target)
+        if bool(layer.missing_filter) != lacks:
+            self.viol.append(viol("layer-missing-filter-flag", f"ConvContract.missing_filter is {layer.missing_filter} but {'some' if lacks else 'no'} (input, target) pair lacks its filter type in the bank; {cfg}", **cfg))
+            return
         try:
             want = rlayer.layer(X, W, Bv, bank, target, layer.use_bias, D, tuple(x.is_torus), layer.stride, layer.padding, layer.lhs_dilation, layer.rhs_dilation)
         except ValueError:
